@@ -17,12 +17,15 @@ open ChibiVerif.C16Qual ChibiVerif.C16QualSpec ChibiVerif.C16QualLemmas
 
 /-- **C16 (qualifier).**  For every sequence of declarations (typedefs, struct/union definitions, objects at file or
     block scope, parameters; specifiers built from primitives, typedef names, tags, `typeof(type)`, `typeof(expr)`,
-    `_Atomic(type)`, with or without the `_Atomic` keyword; any declarator) that the C semantics accepts (`specDecls`)
+    `_Atomic(type)`, with or without the `_Atomic` keyword; any declarator, every `*` of it followed by any list of the
+    qualifiers `const` `volatile` `restrict` `__restrict` `__restrict__` `_Atomic` - `int *_Atomic p` makes the POINTER
+    atomic, C11 6.7.6.1) that the C semantics accepts (`specDecls`)
     and chibicc elaborates (`elabDecls`), and every expression `e` built from identifiers, `*`, `&`, `.`, `->`, `[]`,
     `+ constant`, casts, calls and parentheses: if the C semantics makes `e` an lvalue of atomic type `T` - through any
-    chain of typedefs, arrays of atomics, members of structure objects, dereferenced pointers to atomics - then every
+    chain of typedefs, arrays of atomics, members of structure objects, dereferenced pointers to atomics, atomic
+    pointers at any level of a declarator - then every
     one of the ten `op=` operators and `++e`, `--e`, `e++`, `e--` is compiled to the compare-and-swap loop whose
-    `lock cmpxchg` has the size of `T` (scalar `T` of at most 8 bytes), or is rejected with a diagnostic (`long double`,
+    `lock cmpxchg` has the size of `T` (scalar `T` of at most 8 bytes; 8 for a pointer), or is rejected with a diagnostic (`long double`,
     structures, unions).  It is never a plain load-operate-store. -/
 theorem C16_qualifier (ds : List Decl) (senv : SEnv) (menv : Env) (e : Expr) (T : CType)
     (hspec : specDecls {} ds = some senv) (hmodel : elabDecls {} ds = .ok menv)
@@ -60,9 +63,9 @@ def exDecls : List Decl :=
    .aggDef false "S" [⟨"pad", .prim .char, false, .name, false⟩, ⟨"m", .tdef "ai", false, .arr .name 3, false⟩,
                       ⟨"bf", .prim .int, false, .name, true⟩],
    .var "s" (.agg false "S") false .name,
-   .var "p" (.agg false "S") false (.ptr .name),
+   .var "p" (.agg false "S") false (.ptr .name []),
    .param "q" (.prim .long) true (.arr .name 2),
-   .var "l" (.typeofE (.idx (.mem (.var "s") "m") 1)) false (.ptr .name)]
+   .var "l" (.typeofE (.idx (.mem (.var "s") "m") 1)) false (.ptr .name [])]
 
 /-- non-vacuity of `C16_qualifier`: `p->m[2]`, `*l`, `q[1]`, `(*&s.m[0])` are atomic lvalues (of 4, 4, 8, 4 bytes), and
     chibicc elaborates the declarations -/
@@ -86,13 +89,76 @@ example :
      | .error _ => []) =
       [some .plainMember, some .plainMember, some .plainIncDec, some .plainDeref, none, none, some (.casLoop 4)] := by decide
 
+/-- the declarations of the atomic-pointer examples:
+    `int *_Atomic p; int *_Atomic *q; int *const _Atomic volatile _Atomic a[3]; struct P { char c; int *_Atomic m; } s;`
+    `typedef int *restrict _Atomic apt; apt t[2]; void (*_Atomic fp)(void); void f(long *_Atomic r) { … }` -/
+def exPtrDecls : List Decl :=
+  [.var "p" (.prim .int) false (.ptr .name [.atomic]),
+   .var "q" (.prim .int) false (.ptr (.ptr .name []) [.atomic]),
+   .var "a" (.prim .int) false (.ptr (.arr .name 3) [.const, .atomic, .volatile, .atomic]),
+   .aggDef false "P" [⟨"c", .prim .char, false, .name, false⟩, ⟨"m", .prim .int, false, .ptr .name [.atomic], false⟩],
+   .var "s" (.agg false "P") false .name,
+   .typedef_ "apt" (.prim .int) false (.ptr .name [.restrict, .atomic]),
+   .var "t" (.tdef "apt") false (.arr .name 2),
+   .param "r" (.prim .long) false (.ptr .name [.atomic]),
+   .var "fp" .void false (.fn (.ptr .name [.atomic]))]
+
+/-- non-vacuity of `C16_qualifier` for atomic POINTERS (the qualifier list after `*`, /repo 1c76c1e): `p`, `*q`, `a[1]`,
+    `s.m`, `t[0]`, `r`, `fp` are atomic lvalues of 8 bytes; the pointee `*p`, the plain pointer `q` and `r[1]` are not
+    atomic lvalues; and chibicc elaborates the declarations -/
+example :
+    (do let senv ← specDecls {} exPtrDecls
+        pure (([.var "p", .deref (.var "q"), .idx (.var "a") 1, .mem (.var "s") "m", .idx (.var "t") 0, .var "r", .var "fp",
+                .deref (.var "p"), .var "q", .idx (.var "r") 1] : List Expr).map fun e =>
+          (atomicLvalue senv e).bind CType.rmwSize?)) =
+      some [some 8, some 8, some 8, some 8, some 8, some 8, some 8, none, none, none] ∧
+    (elabDecls {} exPtrDecls).toOption.isSome = true := by decide
+
+/-- on those declarations the model sends `p++`, `p += 1`, `--*q`, `s.m -= 1` (a member, but atomic), `fp++` to the loop
+    of 8 bytes, and the plain pointee `*p += 1`, the plain pointer `q++`, `r[1] <<= 1` to the plain path -/
+example :
+    (match elabDecls {} exPtrDecls with
+     | .ok menv =>
+       [elabUpdate menv .postInc (.var "p"), elabUpdate menv .add (.var "p"), elabUpdate menv .preDec (.deref (.var "q")),
+        elabUpdate menv .sub (.mem (.var "s") "m"), elabUpdate menv .postInc (.var "fp"),
+        elabUpdate menv .add (.deref (.var "p")), elabUpdate menv .postInc (.var "q"),
+        elabUpdate menv .shl (.idx (.var "r") 1)].map Except.toOption
+     | .error _ => []) =
+      [some (.casLoop 8), some (.casLoop 8), some (.casLoop 8), some (.casLoop 8), some (.casLoop 8),
+       some .plainDeref, some .plainDeref, some .plainDeref] := by decide
+
+/-- **C16 (qualifier, atomic pointer).**  The instance the repair /repo 1c76c1e is about, for ALL contexts: after any
+    declarations `ds`, an object declared `[_Atomic] s * Q… x` whose qualifier list `Q…` (any length, any order, any
+    mixture of `const`, `volatile`, the `restrict` spellings) contains `_Atomic`: if the C semantics accepts the
+    declarations and chibicc elaborates them, each of the 14 update operators applied to `x` is the compare-and-swap loop
+    with an 8-byte `lock cmpxchg` - whatever the pointee type is. -/
+theorem C16_qualifier_atomic_pointer (ds : List Decl) (x : String) (s : TSpec) (kw : Bool) (qs : List PQual)
+    (hq : PQual.atomic ∈ qs) (senv : SEnv) (menv : Env)
+    (hspec : specDecls {} (ds ++ [.var x s kw (.ptr .name qs)]) = some senv)
+    (hmodel : elabDecls {} (ds ++ [.var x s kw (.ptr .name qs)]) = .ok menv) (op : UpdOp) :
+    elabUpdate menv op (.var x) = .ok (.casLoop 8) := by
+  obtain ⟨P, hat⟩ := atomicLvalue_declared_pointer ds x s kw qs hq senv hspec
+  simpa [CType.rmwSize?] using C16_qualifier _ senv menv (.var x) (.ptr P true) hspec hmodel hat op
+
+/-- non-vacuity of `C16_qualifier_atomic_pointer`: `struct P { … }; struct P *volatile _Atomic const x;` after the
+    declarations above -/
+example :
+    (specDecls {} (exPtrDecls ++ [.var "x" (.agg false "P") false (.ptr .name [.volatile, .atomic, .const])])).isSome = true ∧
+    (elabDecls {} (exPtrDecls ++ [.var "x" (.agg false "P") false (.ptr .name [.volatile, .atomic, .const])])).toOption.isSome = true ∧
+    PQual.atomic ∈ [PQual.volatile, .atomic, .const] := by decide
+
 open ChibiVerif.C16Declr in
-/-- **C16 (declarator, token level).**  parse.c `declarator` - with its double parse of a parenthesised declarator and
-    its right-to-left handling of array suffixes - run on the tokens of ANY valid declarator (C11 6.7.6 grammar: the
-    identifier, `*`, `[n]`, `(void)`, parentheses, nested to any depth; no function returning a function or an array),
+/-- **C16 (declarator, token level).**  parse.c `declarator` - with its double parse of a parenthesised declarator, its
+    right-to-left handling of array suffixes and the qualifier loop of `pointers` (/repo 1c76c1e) - run on the tokens of
+    ANY valid declarator (C11 6.7.6 grammar: the identifier, `*` followed by a type-qualifier-list - `const`, `volatile`,
+    `restrict`, `__restrict`, `__restrict__`, `_Atomic` in any order and multiplicity -, `[n]`, `(void)`, parentheses,
+    nested to any depth; no function returning a function or an array),
     started with a `Type` that refines the C type `T` named by the specifiers and followed by anything that does not
     continue the declarator, consumes exactly the declarator and returns a `Type` that refines the C11 type `T D` of the
-    identifier: same derivation, every `_Atomic` of `T` still there.  (`F` bounds the recursion depth.) -/
+    identifier: same derivation, every `_Atomic` of `T` still there, and every pointer whose qualifier list contains
+    `_Atomic` marked atomic.  (`F` bounds the recursion depth.  The token lists include `* … _Atomic ( D )`: by the
+    letter of C11 6.7.2.4p4 an `_Atomic` immediately followed by `(` begins an `_Atomic(type-name)` specifier, but no
+    specifier can stand after `*`, and gcc 12, clang 14 and chibicc all read the qualifier there.) -/
 theorem C16_declarator_tokens (d : Declr) (hv : valid d = true) :
     ∃ F, ∀ (t : Ty) (T : CType) (rest : List DTok) (fuel : Nat), refines t T = true → endsDeclr rest = true → F ≤ fuel →
       ∃ t', declaratorT fuel (toks d ++ rest) t = some (t', rest) ∧ refines t' (declType d T) = true := by
@@ -103,10 +169,24 @@ open ChibiVerif.C16Declr in
 /-- non-vacuity of `C16_declarator_tokens`: `_Atomic int *(*a[2])(void)` (array of 2 pointers to functions returning pointer
     to atomic int), followed by `;`-like rest: tokens `* ( * a [ 2 ] ) ( void )` -/
 example :
-    let d : Declr := .ptr (.fn (.ptr (.arr .name 2)))
+    let d : Declr := .ptr (.fn (.ptr (.arr .name 2) [])) []
     valid d = true ∧ toks d = [.star, .lp, .star, .ident, .lb, .num 2, .rb, .rp, .lp, .void_, .rp] ∧
     declaratorT 6 (toks d ++ [.rp]) (.num .int true) =
       some (.arr (.ptr (.fn (.ptr (.num .int true) false) false) false) 2 false, [.rp]) ∧
     declType d (.num .int true) = .arr (.ptr (.fn (.ptr (.num .int true) false)) false) 2 := by decide
+
+open ChibiVerif.C16Declr in
+/-- the same with qualifier lists: `_Atomic int *_Atomic const (*volatile _Atomic a[2])(void)` - array of 2 ATOMIC pointers
+    to functions returning an ATOMIC pointer to atomic int; and a list without `_Atomic` leaves the pointer plain -/
+example :
+    let d : Declr := .ptr (.fn (.ptr (.arr .name 2) [.volatile, .atomic])) [.atomic, .const]
+    valid d = true ∧
+    toks d = [.star, .qual .atomic, .qual .const, .lp, .star, .qual .volatile, .qual .atomic, .ident, .lb, .num 2, .rb, .rp,
+              .lp, .void_, .rp] ∧
+    declaratorT 6 (toks d ++ [.rp]) (.num .int true) =
+      some (.arr (.ptr (.fn (.ptr (.num .int true) true) false) true) 2 false, [.rp]) ∧
+    declType d (.num .int true) = .arr (.ptr (.fn (.ptr (.num .int true) true)) true) 2 ∧
+    declaratorT 2 (toks (.ptr .name [.restrict3, .const, .restrict2, .volatile, .restrict]) ++ [.rp]) (.num .int false) =
+      some (.ptr (.num .int false) false, [.rp]) := by decide
 
 end ChibiVerif.Props.C16
